@@ -10,6 +10,7 @@ import Driver.C18
 import Driver.C16
 import Driver.C15
 import Driver.C06
+import Driver.C13
 open Driver
 
 def handle (line : String) : String :=
@@ -29,6 +30,7 @@ def handle (line : String) : String :=
   | "c16" :: args => c16 args
   | "c15" :: args => c15 args
   | "c06" :: args => c06 args
+  | "c13" :: args => c13 args
   | _ => "bad-op"
 
 partial def loop (h : IO.FS.Stream) (out : IO.FS.Stream) : IO Unit := do
